@@ -359,3 +359,6 @@ def run(repo: Repo, rep: Report, tier: str) -> None:
     # ---------------- R9 ---------------------------------------------------------------
     _borrow16(repo, rep, "C15", "C15-R3", "C16-R9", "a memory declared in a loop body is one cell per iteration: the re-declaration is recognised by id",
               select=lambda o: "indexes every node" in o.construct, floor=1)
+
+    # ---------------- R10 --------------------------------------------------------------
+    _borrow16(repo, rep, "C15", "C15-R16", "C16-R10", "a loop written in a function body is part of the function: the transformer's body filter keeps ForStmt", floor=1)
